@@ -547,3 +547,63 @@
                 assert(r.take(message_reader.view().len() as int) =~= message_reader.view());
                 lemma_view_pre(r, message_reader.view().len() as int);
             }
+@@ LogInnerManager::init spec
+    requires full_read_model(),
+        // the file is new (empty) or was written by this store: it is the disk image of SOME well-formed state that starts at start_index
+        disk_at_open(log_path@).len() == 0 || exists|m: LogInnerManager| #[trigger] is_image_of(disk_at_open(log_path@), m, start_index),
+    ensures
+        // C02: reopening the image of ANY well-formed state yields a well-formed state with the same index, cursors and entry count
+        // (hence, by write's / read_records' contracts, the same entries): acknowledged entries survive reopen
+        r is Ok && disk_at_open(log_path@).len() > 0 ==> r.unwrap().wf()
+            && forall|m: LogInnerManager| #[trigger] is_image_of(disk_at_open(log_path@), m, start_index) ==> same_log(r.unwrap(), m),
+@@ LogInnerManager::init entry
+    broadcast use axiom_hdr_roundtrip;
+    broadcast use group_std_extra;
+    let ghost dd = disk_at_open(log_path@);
+    let ghost m0 = choose|m: LogInnerManager| #[trigger] is_image_of(dd, m, start_index);
+    proof { if dd.len() > 0 { lemma_reopen(m0); } }
+@@ LogInnerManager::init after_call read_be 1
+            proof {
+                assert(data_buf@ =~= dd.take(4096));
+                assert(data_buf@.take(32) =~= dd.take(32));
+                assert(data_buf@.subrange(32, 4096) =~= dd.subrange(32, 4096));
+            }
+@@ LogInnerManager::init before_call move_to_end 1
+        proof {
+            let c = data_file.contents();
+            if dd.len() == 0 {
+                let z = c.skip(4096);
+                assert forall|i: int| 0 <= i < z.len() implies z[i] == 0u8 by { assert(z[i] == c[i + 4096]); }
+                lemma_zero_stream(z);
+                assert(indexs@.last() == first_index);
+            } else {
+                assert(c == dd);
+            }
+        }
+@@ LogInnerManager::init before_stmt 11
+        proof {
+            if dd.len() > 0 {
+                lemma_index_count_mod(m0.indexs@, m0.header.index_interval as int, m0.start_index as int, m0.msg_count as int, m0.current_index_count as int);
+                assert(this.indexs@ == m0.indexs@);
+                assert(this.index_cursor == m0.index_cursor);
+                assert(this.data_cursor == m0.data_cursor);
+                assert(this.msg_count == m0.msg_count);
+                assert(this.file_len == m0.file_len);
+                assert(this.header == m0.header);
+                assert(this.current_index_count == m0.current_index_count);
+                assert(this.data_file.contents() == dd);
+                assert(this.index_file.contents() == dd);
+                assert(same_log(this, m0));
+                lemma_reopened_wf(this, m0);
+            }
+        }
+@@ LogInnerManager::init before_tail
+        proof {
+            if dd.len() > 0 {
+                assert(same_log(this, m0));
+                assert forall|m: LogInnerManager| #[trigger] is_image_of(dd, m, start_index) implies same_log(this, m) by {
+                    lemma_reopen(m);
+                    lemma_index_count_mod(m.indexs@, m.header.index_interval as int, m.start_index as int, m.msg_count as int, m.current_index_count as int);
+                }
+            }
+        }
